@@ -242,18 +242,26 @@ theorem tick_does_not_wait {s : State} {j : Job} {rest : List Job} (hq : s.queue
   | spawned => rfl
   | holding => rfl
 
-/-- The one place where the main thread does take the shared mutex is the handler of the
-configuration response (`response.rs`): it is enabled exactly when no job holds the mutex, i.e. the
-main loop can be delayed by the analysis in progress, but by nothing else (a poisoned mutex is
-skipped). -/
-theorem config_waits_only_for_the_holder (s : State) (live : Bool) (order : List Uri) :
-    (step an s (.config live order)).isSome = true ↔
-      ((∀ id, s.lock ≠ .held id) ∧ samePerm order (keys s.docs) = true) := by
-  simp only [step]
-  cases hl : s.lock with
-  | held id => simp
-  | free => by_cases h : samePerm order (keys s.docs) = true <;> simp [h]
-  | poisoned => by_cases h : samePerm order (keys s.docs) = true <;> simp [h]
+/-- The one place where the main thread does take the shared mutex is the first half of the handler
+of the configuration response (`response.rs`): it is enabled exactly when no job holds the mutex, i.e.
+the main loop can be delayed by the one analysis in progress, but by nothing else (a poisoned mutex
+is skipped), and it changes nothing.  The second half (relaunch of every open document with a private
+analyzer) never waits. -/
+theorem config_waits_only_for_the_holder (s : State) :
+    ((step an s .configLock).isSome = true ↔ (∀ id, s.lock ≠ .held id)) ∧
+    (∀ s', step an s .configLock = some s' → s' = s) ∧
+    (∀ live order, (step an s (.config live order)).isSome = true ↔ samePerm order (keys s.docs) = true) := by
+  refine ⟨?_, ?_, ?_⟩
+  · simp only [step]
+    cases hl : s.lock <;> simp
+  · intro s' h
+    simp only [step] at h
+    split at h
+    · simp at h
+    · simp only [Option.some.injEq] at h; exact h.symm
+  · intro live order
+    simp only [step]
+    by_cases h : samePerm order (keys s.docs) = true <;> simp [h]
 
 /-- every reachable state answers a request (non-vacuity of (iii) on a state with a held mutex) -/
 example : (run (fun t => some t) init [.opn 1 1 5, .acquire 0, .request, .tick, .request]).map
